@@ -71,7 +71,7 @@ def build_tpi(ctx, rng, kinds, quats, law_name, compliance, explicit_lref):
     return system, tpi, law, subs, B, k, d
 
 
-def law_record(ctx, rid, rng, tpi, law, law_name, compliance, subs, B, k, d, where):
+def law_record(ctx, rid, rng, tpi, law, law_name, compliance, subs, B, k, d, where, prev=None):
     iv = lambda lo=-2, hi=3: np.array([rng.randint(lo, hi) for _ in range(3)], dtype=float)
     t = max(s.t_eval for s in subs)
     # sample states until the point distance is an integer: move subsystem 2 (or 1) so that r_P2 - r_P1 is Pythagorean
@@ -88,6 +88,10 @@ def law_record(ctx, rid, rng, tpi, law, law_name, compliance, subs, B, k, d, whe
         else:
             st[0][0][:3] -= shift
         break
+    if prev is not None:
+        # the configuration of the previous record with other velocities: consecutive evaluations that differ in u only
+        for i in range(2):
+            st[i][0] = prev[i][0].copy()
     q = np.concatenate([x[0] for x in st]); u = np.concatenate([x[1] for x in st])
     pts = [np.asarray(subs[i].obj.r_OP(t, st[i][0], subs[i].xi, B[i])) for i in range(2)]
     vel = [np.asarray(subs[i].obj.v_P(t, st[i][0], st[i][1], subs[i].xi, B[i])) for i in range(2)]
@@ -130,7 +134,7 @@ def law_record(ctx, rid, rng, tpi, law, law_name, compliance, subs, B, k, d, whe
             rec["cres"] = [0, 1]; rec["claforce"] = [0, 1]; rec["laprobe"] = [0, 1]
             h = np.asarray(law.h(t, q.copy(), u.copy())).ravel()
         rec["hu"] = R(h @ u, "h.u")
-    return rec, w
+    return rec, w, st
 
 
 def force_records(ctx, rng, quats, records, wheres):
@@ -171,7 +175,9 @@ def force_records(ctx, rng, quats, records, wheres):
 
 
 def revolute_float(ctx, rng):
-    """scalar laws on a Revolute joint, states on the joint manifold: compliance residual, power and energy rate in floats"""
+    """scalar laws on a Revolute joint, states on the joint manifold: compliance residual, power and energy rate in floats.  The joint basis is
+    octahedral or oblique, the partner is the origin or a second free body; the rates of the angle and of the energy are central differences
+    along the motion on the joint manifold (the pair moves rigidly while body 2 turns about the common axis)."""
     from cardillo import System
     from cardillo.discrete import RigidBody
     from cardillo.constraints import Revolute
@@ -180,42 +186,87 @@ def revolute_float(ctx, rng):
     from cardillo.solver import SolverOptions
 
     n = 0
+    H = 1e-5
+    rv = lambda s=1.0: np.array([rng.uniform(-s, s) for _ in range(3)])
     for law_name in ("spring", "kv"):
         for compliance in (True, False):
             for axis in range(3):
-                system = System()
-                A0 = octahedral_group()[rng.randrange(24)].astype(float)
-                body = RigidBody(1.0, np.eye(3), q0=np.concatenate([[0.0, 0, 0], Spurrier(A0)]), name=f"b{rng.randrange(10**9)}")
-                joint = Revolute(system.origin, body, axis, angle0=rng.choice([0.0, 0.4]), r_OJ0=np.zeros(3), A_IJ0=A0)
-                k, d = 3.0, 0.7
-                law = Spring(joint, k=k, l_ref=rng.choice([None, 0.2]), compliance_form=compliance) if law_name == "spring" else \
-                    KelvinVoigtElement(joint, k=k, d=d, l_ref=rng.choice([None, -0.3]), compliance_form=compliance)
-                system.add(body, joint, law)
-                system.assemble(options=SolverOptions(compute_consistent_initial_conditions=False))
-                e = np.zeros(3); e[axis] = 1.0
-                for phi, om in ((0.3, 1.1), (1.9, -0.6), (-1.2, 2.0)):
-                    A = A0 @ Exp_SO3(phi * e)
-                    q = np.concatenate([[0.0, 0, 0], Spurrier(A)]); u = np.concatenate([[0.0, 0, 0], om * e])
-                    w = dict(law=law_name, compliance=compliance, subsystem="Revolute", axis=axis, angle=phi, rate=om)
-                    n += 1
-                    try:
-                        l = joint.l(0.0, q); ld = joint.l_dot(0.0, q, u)
-                        la = law.la_c(0.0, q, u)
-                        exp_la = -k * (l - law.l_ref) - (d * ld if law_name == "kv" else 0.0)
-                        Wlu = np.asarray(joint.W_l(0.0, q)).ravel() @ u
-                        E = law.E_pot(0.0, q)
-                        bad = []
-                        if not (abs(ld - om) <= 1e-10): bad.append(f"l_dot {ld} is not the relative angular velocity {om}")
-                        if not (abs(Wlu - ld) <= 1e-10): bad.append(f"W_l^T u = {Wlu} != l_dot = {ld}")
-                        if not (abs(la - exp_la) <= 1e-10): bad.append(f"la_c = {la}, law gives {exp_la}")
-                        if not (abs(E - 0.5 * k * (l - law.l_ref) ** 2) <= 1e-10): bad.append("E_pot is not k e^2/2")
-                        if compliance and abs(np.asarray(law.c(0.0, q, u, np.array([la]))).ravel()[0]) > 1e-10: bad.append("compliance residual does not vanish at the force-form force")
-                        dissip = la * Wlu + k * (l - law.l_ref) * ld
-                        if dissip > 1e-10: bad.append(f"power + energy rate = {dissip} > 0")
-                        for b in bad:
-                            ctx.violation(f"{law_name}:Revolute:{b.split(' ')[0]}", f"{b} at {w}", w)
-                    except Exception as ex:
-                        ctx.violation(f"{law_name}:Revolute:raises:{type(ex).__name__}", f"{type(ex).__name__}: {ex} at {w}", w)
+                for variant in range(3):      # 0: origin - body, octahedral basis; 1: origin - body, oblique basis; 2: body - body, oblique basis
+                    system = System()
+                    A0 = octahedral_group()[rng.randrange(24)].astype(float) if variant == 0 else Exp_SO3(rv(1.5))
+                    rJ = np.zeros(3) if variant == 0 else rv()
+                    r20 = rJ + (np.zeros(3) if variant == 0 else rv())
+                    A20 = A0 if variant == 0 else Exp_SO3(rv(1.5))
+                    body = RigidBody(1.0, np.eye(3), q0=np.concatenate([r20, Spurrier(A20)]), name=f"b{rng.randrange(10**9)}")
+                    two = variant == 2
+                    if two:
+                        r10, A10 = rv(), Exp_SO3(rv(1.5))
+                        body1 = RigidBody(2.0, np.diag([1.0, 2.0, 3.0]), q0=np.concatenate([r10, Spurrier(A10)]), name=f"a{rng.randrange(10**9)}")
+                    joint = Revolute(body1 if two else system.origin, body, axis, angle0=rng.choice([0.0, 0.4]), r_OJ0=rJ, A_IJ0=A0)
+                    k, d = 3.0, 0.7
+                    law = Spring(joint, k=k, l_ref=rng.choice([None, 0.2]), compliance_form=compliance) if law_name == "spring" else \
+                        KelvinVoigtElement(joint, k=k, d=d, l_ref=rng.choice([None, -0.3]), compliance_form=compliance)
+                    system.add(*([body1] if two else []), body, joint, law)
+                    system.assemble(options=SolverOptions(compute_consistent_initial_conditions=False))
+                    e0 = A0[:, axis]
+                    # rigid motion of the pair (identity for the origin): rotation vector th0 + s thd, translation p0 + s pd; relative angle phi + s om
+                    th0, thd, p0, pd = (rv(0.8), rv(), rv(), rv()) if two else (np.zeros(3), np.zeros(3), np.zeros(3), np.zeros(3))
+
+                    def state(phi, om, s):
+                        R = Exp_SO3(th0 + s * thd); p = p0 + s * pd
+                        e = R @ e0
+                        Rrel = Exp_SO3((phi + s * om) * e)
+                        A2 = Rrel @ R @ A20
+                        r2 = p + R @ rJ + Rrel @ R @ (r20 - rJ)
+                        q2 = np.concatenate([r2, Spurrier(A2)])
+                        if not two:
+                            return q2
+                        return np.concatenate([p + R @ r10, Spurrier(R @ A10), q2])
+
+                    def velocity(q, qp, qm):
+                        # u from the central difference of the motion: translational part directly, angular part from A^T A_dot
+                        us = []
+                        for b in range(2 if two else 1):
+                            sl = slice(7 * b, 7 * b + 7)
+                            Ap, Am, A = (RigidBody(1.0, np.eye(3), q0=x[sl]).A_IB(0.0, x[sl]) for x in (qp, qm, q))
+                            W = A.T @ (Ap - Am) / (2 * H)
+                            us.append(np.concatenate([(qp[sl][:3] - qm[sl][:3]) / (2 * H), [W[2, 1] - W[1, 2], W[0, 2] - W[2, 0], W[1, 0] - W[0, 1]]]) )
+                            us[-1][3:] /= 2
+                        return np.concatenate(us)
+
+                    for phi, om in ((0.3, 1.1), (1.2, -0.6), (-0.7, 2.0), (-0.7, -1.3)):
+                        w = dict(law=law_name, compliance=compliance, subsystem="Revolute", axis=axis, angle=phi, rate=om,
+                                 joint=("origin-body, octahedral basis", "origin-body, oblique basis", "body-body, oblique basis, pair in motion")[variant])
+                        n += 1
+                        try:
+                            q, qp, qm = state(phi, om, 0.0), state(phi, om, H), state(phi, om, -H)
+                            u = velocity(q, qp, qm)
+                            lm = joint.l(0.0, qm); l = joint.l(0.0, q); lp = joint.l(0.0, qp)
+                            Em = law.E_pot(0.0, qm); E = law.E_pot(0.0, q); Ep = law.E_pot(0.0, qp)
+                            ld = joint.l_dot(0.0, q, u)
+                            la = law.la_c(0.0, q, u)
+                            exp_la = -k * (l - law.l_ref) - (d * ld if law_name == "kv" else 0.0)
+                            Wlu = np.asarray(joint.W_l(0.0, q)).ravel() @ u
+                            bad = []
+                            if not (abs(ld - om) <= 1e-6): bad.append(f"l_dot {ld} is not the relative angular velocity {om}")
+                            if not (abs((lp - lm) / (2 * H) - om) <= 1e-6): bad.append(f"angle: its rate along the motion is {(lp - lm) / (2 * H)}, the relative angular velocity {om}")
+                            if not (abs(Wlu - ld) <= 1e-9): bad.append(f"W_l^T u = {Wlu} != l_dot = {ld}")
+                            if not (abs(la - exp_la) <= 1e-10): bad.append(f"la_c = {la}, law gives {exp_la}")
+                            if not (abs(E - 0.5 * k * (l - law.l_ref) ** 2) <= 1e-10): bad.append("E_pot is not k e^2/2")
+                            if compliance and abs(np.asarray(law.c(0.0, q, u, np.array([la]))).ravel()[0]) > 1e-10: bad.append("compliance residual does not vanish at the force-form force")
+                            Edot = (Ep - Em) / (2 * H)
+                            power = la * Wlu
+                            diss = d * om * om if law_name == "kv" else 0.0
+                            if not (abs(power + Edot + diss) <= 1e-5 * (1 + abs(Edot))): bad.append(f"power {power} + energy rate {Edot} is not minus the dissipation {diss}")
+                            if power + Edot > 1e-6: bad.append(f"generates energy: power + energy rate = {power + Edot} > 0")
+                            # the same configuration with the opposite velocity, evaluated next (only u differs from the previous call)
+                            la2 = law.la_c(0.0, q, -u)
+                            exp2 = -k * (l - law.l_ref) + (d * ld if law_name == "kv" else 0.0)
+                            if not (abs(la2 - exp2) <= 1e-10): bad.append(f"la_c at the same configuration with the opposite velocity = {la2}, law gives {exp2}")
+                            for b in bad:
+                                ctx.violation(f"{law_name}:Revolute:{b.split(' ')[0]}", f"{b} at {w}", w)
+                        except Exception as ex:
+                            ctx.violation(f"{law_name}:Revolute:raises:{type(ex).__name__}", f"{type(ex).__name__}: {ex} at {w}", w)
     return n
 
 
@@ -309,10 +360,12 @@ def run(ctx):
                 except Exception as ex:
                     ctx.violation(f"{key}:build:{type(ex).__name__}", f"building {where} raised {type(ex).__name__}: {ex}", where)
                     continue
+                prev = None
                 for si in range(nstates):
                     rid = len(records) + 1
                     try:
-                        out = law_record(ctx, rid, rng, tpi, law, law_name, compliance, subs, B, k, d, where)
+                        out = law_record(ctx, rid, rng, tpi, law, law_name, compliance, subs, B, k, d, where, prev=prev if si % 2 else None)
+                        prev = out[2] if out is not None else None
                     except TooBig:
                         continue
                     except OffLattice as ex:
@@ -345,7 +398,7 @@ def run(ctx):
                     "samples": [{"where": wheres[1], "record": {k: records[0][k] for k in ("law", "k", "d", "l", "ldot", "la", "E2", "hu")}}],
                     "law_records": counts, "force_records": nforce, "revolute_float_cases": nrev, "system_E_pot": epot,
                     "rule": "5 law variants x 7 subsystem pairings (offsets on both points) x default/explicit l_ref x lattice states with integer point distance; "
-                            "Force on rigid body / point mass / rod nodes; laws on Revolute joints (3 axes, 3 states on the joint manifold, floats); System.E_pot on 4 rod families"}
+                            "Force on rigid body / point mass / rod nodes; laws on Revolute joints (3 axes x {origin-body octahedral, origin-body oblique, body-body oblique in motion} x 4 states on the joint manifold, angle and energy rates by central differences, floats); System.E_pot on 4 rod families"}
     ctx.assumptions = ["two-point interactions are evaluated where the point distance is an integer (then l, l_dot, force, energy and power are rational)",
                        "laws on revolute joints and the line-distributed rod load are compared in floats (1e-10 / 1e-9)"]
 
